@@ -91,10 +91,18 @@ def specCheck (h : Hist) (s sPrev : List ObjRec) (op : Op ObjRec) (prevDump : St
 
 def opSpecStep (s : List ObjRec) (op : Op ObjRec) : List ObjRec := specStep s op
 
-/-- `PathOK` (ProofsHeapAdjust.lean) for the Insert about to be performed on the arena; `true` for a Delete -/
+/-- `PathOK` (ProofsHeapAdjust.lean) for the Insert / the shape part of `OnPath` (ProofsHeapCondense.lean) for the Delete about to be performed on the arena -/
 def insertPathOK (heap : Heap.HTree ObjRec) (fuel : Nat) : Op ObjRec → Bool
   | .ins o => Heap.pathOKb goHeur heap.mem (Bounded.bounds o) 1 heap.root fuel heap.root
-  | .del _ => true
+  | .del o =>
+    -- the SHAPE part of `OnPath` (ProofsHeapCondense.lean; MinChildren := 0 switches the fill clause off: under-full nodes are legitimate)
+    -- on the path from the root to the leaf findLeaf returns, read off the stored parent fields
+    match Heap.findLeaf heap.mem o fuel heap.root with
+    | .ok (some lp) =>
+      match Heap.pathUp heap.mem heap.root fuel lp [] with
+      | some path => Heap.onPathb heap.mem heap.root 0 fuel heap.root path lp
+      | none => false
+    | _ => true
 
 def judgeHist (h : Hist) (steps : List Tok) : String := Id.run do
   let cls := h.cls
@@ -130,7 +138,7 @@ def judgeHist (h : Hist) (steps : List Tok) : String := Id.run do
         | .error f => firstDiff := some s!"{at_}-model-faults-{faultStr f}-impl-does-not"
         | .ok (t', _) => model := t'
         if useHeap && firstDiff.isNone then
-          if !insertPathOK heap hfuel op then firstDiff := some s!"{at_}-pointer-level-model-insert-path-hypothesis-PathOK-fails"
+          if !insertPathOK heap hfuel op then firstDiff := some s!"{at_}-pointer-level-model-path-hypothesis-PathOK/OnPath-fails"
           match heap.step goHeur hfuel op with
           | .error _ => firstDiff := some s!"{at_}-pointer-level-model-faults"
           | .ok (h', _) => heap := h'
@@ -155,7 +163,7 @@ def judgeHist (h : Hist) (steps : List Tok) : String := Id.run do
             model := t'
             if useHeap then
               -- the path hypothesis of C11_heap_insert_nosplit_refines_partial, evaluated on the arena BEFORE the Insert (sound: pathOKb_sound)
-              if !insertPathOK heap hfuel op then firstDiff := some s!"{at_}-pointer-level-model-insert-path-hypothesis-PathOK-fails"
+              if !insertPathOK heap hfuel op then firstDiff := some s!"{at_}-pointer-level-model-path-hypothesis-PathOK/OnPath-fails"
               match heap.step goHeur hfuel op with
               | .error _ => firstDiff := some s!"{at_}-pointer-level-model-faults-functional-model-does-not"
               | .ok (h', hdr) =>
